@@ -125,7 +125,7 @@ def correspondence(ctx, model_ok=True):
     failures = []
     broken = []
     reqs, progs_src = [], []
-    n_req = 9000 if ctx.thorough else 900
+    n_req = 9000 if ctx.thorough else 7000
     for i in range(n_req):
         r = rng.fork("q%d" % i)
         k = r.below(4)
@@ -229,7 +229,7 @@ def correspondence(ctx, model_ok=True):
             if c[0] != "ok" or list(c[2]) != e or uaf:
                 failures.append({"what": "iteration scenario '%s' prints %s (%s), expected %s" % (name, list(c[2]) if len(c) > 2 else c, c[0], e), "program": src,
                                  "expected": e, "signature": "scenario " + name, "failing_input": True})
-    gen = progs.generated(rng, ["iteration", "control"], 4800 if ctx.thorough else 450)
+    gen = progs.generated(rng, ["iteration", "control"], 4800 if ctx.thorough else 3000)
     sd = specdiff.diff(ctx, [(n, s, m) for n, s, m, _ in gen] + [("scenario:" + sc[0], sc[1], {}) for sc in SCENARIOS], "C18", broken) if model_ok else {"failures": [], "compared": 0}
     failures += sd["failures"]
     cov = {
